@@ -46,6 +46,11 @@ def ref(name, ts, vals, r):
         return ("float", float(x))
     a, b = number(ts[0], vals[0], r), number(ts[1], vals[1], r)
     ra, rb = a * S, b * S                  # representations (integers)
+    if name in ("lshift", "rshift"):
+        k = int(vals[1])
+        if ts != "Fi" or k < 0 or (name == "rshift" and ra < 0):
+            return refsem.RAISES
+        return ("num", Fraction(int(ra) << k, S) if name == "lshift" else Fraction(int(ra) >> k, S))
     if name == "pow":
         n = int(vals[1])
         if ts != "Fi" or n < 0:
@@ -85,6 +90,11 @@ def in_core(name, ts, vals, r, b):
         return True
     if name == "abs":
         return abs(number(ts[0], vals[0], r) * S) < lim // 2
+    if name in ("lshift", "rshift"):
+        x, k = int(number(ts[0], vals[0], r) * S), int(vals[1])
+        if name == "lshift":
+            return ts == "Fi" and 0 <= k <= 8 and abs(x << k) < lim // 2
+        return ts == "Fi" and 0 <= x < lim and 0 <= k < b
     if name == "pow":
         x = number(ts[0], vals[0], r) * S
         return ts == "Fi" and 0 <= int(vals[1]) <= 4 and abs(x) ** max(1, int(vals[1])) < lim * S ** max(0, int(vals[1]) - 1) // 4
@@ -197,6 +207,8 @@ def pairs():
     for name in UN:
         out.append((name, "F"))
     out.append(("pow", "Fi"))        # fixed point ** constant integer: repeated product (x * x**(n-1)), each product floored
+    out.append(("lshift", "Fi"))     # shifts of the representation by a constant: x * 2^k exactly, floor(x / 2^k)
+    out.append(("rshift", "Fi"))
     return out
 
 
